@@ -106,7 +106,6 @@ def run_session(c, kind: str, keys: list[str], vals: list[bytes]) -> dict:
     res["state"] = be._state
     uf = getattr(be, "_ukvfile", None)
     res["file_closed"] = True if uf is None else bool(uf.closed)
-    # drop whatever a failed flush left in the queue: it belongs to the failed session
-    be._write_queue.clear()
-    be._usedmem = 0
+    # NOTE: whatever a failed flush left in the write queue stays there: the next writing session of
+    # this handle will flush it ("may persist"), and it must not prevent that session from proceeding.
     return res
